@@ -33,6 +33,9 @@ ItemVerdict(kind, got, want, full) ==
        ELSE "ok"
   ELSE IF kind = "tr" THEN
        IF got.k # want.k \/ got.first # want.first THEN "wrong-trace"
+       \* a record ABOUT a thread shows the name the listing's own TracesParser has learned so far - nothing another listing
+       \* or an earlier request learned (names live in the generator: compared whether or not the listing was disturbed)
+       ELSE IF want.f.c = "TERM" /\ "tn" \in DOMAIN got /\ got.tn # want.f.name THEN "wrong-thread-name"
        ELSE IF full /\ ~ProcOK(got.proc, want.proc) THEN "process-column"
        ELSE "ok"
   ELSE IF kind = "logs" THEN
